@@ -7,6 +7,7 @@ package main
 import (
 	"go/types"
 	"sort"
+	"strings"
 )
 
 func ghostPrefix(pi *PkgInfo, name string) string { return "Ghost." + shortPkg(pi.Path) + "." + name }
@@ -62,4 +63,29 @@ func (c *CEnv) ghostLoc(e *CE) *Loc {
 		c.fail("unknown ghost variable %s", e.Name)
 	}
 	return &Loc{Prefix: ghostPrefix(pi, e.Name), Root: IntLit(1), T: t}
+}
+
+// monotoneGhostComp reports whether a heap component holds a ghost flag declared monotone.
+func (u *Universe) monotoneGhostComp(comp string) bool {
+	if !strings.HasPrefix(comp, "Ghost.") {
+		return false
+	}
+	for _, pi := range u.pkgs {
+		if pi == nil || pi.Contracts == nil {
+			continue
+		}
+		for name := range pi.Contracts.MonotoneGhosts {
+			if comp == ghostPrefix(pi, name) {
+				return true
+			}
+		}
+	}
+	return false
+}
+
+// keepMonotone: after a havoc of a monotone ghost flag, true stays true.
+func (x *Exec) keepMonotone(k string, old, nw *Term) {
+	if x.vc.uni.monotoneGhostComp(k) {
+		x.vc.assume(Implies(Select(old, IntLit(1)), Select(nw, IntLit(1))))
+	}
 }
